@@ -5,14 +5,18 @@ cd /repo
 out=/tmp/opcua-baseline-$$.log
 cargo nextest run --workspace --no-fail-fast --tool-config-file pb:/w/lib/nextest.toml --profile pb --test-threads 8 --offline > $out 2>&1
 python3 - "$out" <<'PY'
-import json,re,sys
-log=open(sys.argv[1]).read()
-passed=set()
-for m in re.finditer(r'^\s+PASS \[[^\]]*\]\s+(?:\(\s*\d+/\d+\)\s+)?(\S+)\s+(\S+)\s*$', log, re.M):
-    passed.add(m.group(1)+'::'+m.group(2))
+import json,sys
+import xml.etree.ElementTree as ET
+passed=set(); failed=set()
+root=ET.parse('/repo/target/nextest/pb/junit.xml').getroot()
+for suite in root.iter('testsuite'):
+    for case in suite.iter('testcase'):
+        name=suite.get('name')+'::'+case.get('name')
+        bad=any(ch.tag in ('failure','error') for ch in case)
+        (failed if bad else passed).add(name)
 stable=json.load(open('/root/.vp/BASELINE.json'))['stable_pass']
 missing=[t for t in stable if t not in passed]
-print("stable:",len(stable),"passed-of-stable:",len(stable)-len(missing),"all passed:",len(passed))
+print("stable:",len(stable),"passed-of-stable:",len(stable)-len(missing),"all passed:",len(passed),"failed:",len(failed))
 for t in missing[:20]: print("MISSING",t)
 sys.exit(1 if missing else 0)
 PY
